@@ -1,8 +1,9 @@
 #!/bin/bash
-# full regression of the machinery itself (not a registered check): baseline, all checks, self-test, stored twins, seeded changes
+# full regression of the machinery itself (not a registered check): baseline, all checks (both tiers), self-test, stored twins, seeded changes
 cd /verif
 /venv/bin/python tools/mkbaseline.py | tail -1
-bad=0; for p in C01 C02 C03 C04 C05 C07 C08 C09 C10 C11 C12 C13 C14 C15 C16 C17 C18 C19 C20; do ./check $p > /tmp/out_$p.txt 2>&1 || { echo "CHECK $p FAILED"; bad=1; }; done; bad2=0; for p in C01 C02 C03 C04 C05 C07 C08 C09 C10 C11 C12 C13 C14 C15 C16 C17 C18 C19 C20; do VERIF_EVIDENCE_DIR=/tmp/ev_th ./check $p --tier thorough > /tmp/outth_$p.txt 2>&1 || { echo "THOROUGH $p FAILED"; bad2=1; }; done
+bad=0; for p in C01 C02 C03 C04 C05 C07 C08 C09 C10 C11 C12 C13 C14 C15 C16 C17 C18 C19 C20; do ./check $p > /tmp/out_$p.txt 2>&1 || { echo "CHECK $p FAILED"; bad=1; }; done
+bad2=0; for p in C01 C02 C03 C04 C05 C07 C08 C09 C10 C11 C12 C13 C14 C15 C16 C17 C18 C19 C20; do VERIF_EVIDENCE_DIR=/tmp/ev_th ./check $p --tier thorough > /tmp/outth_$p.txt 2>&1 || { echo "THOROUGH $p FAILED"; bad2=1; }; done
 echo "checks on the tree: quick $([ $bad = 0 ] && echo all exit 0 || echo SOME FAILED); thorough $([ $bad2 = 0 ] && echo all exit 0 || echo SOME FAILED)"
 ./selftest 2>&1 | grep -v "^ok" | tail -6
 /venv/bin/python tools/twins.py twins/* > /tmp/reg_twins1.txt 2>&1; echo "twins : $(grep -c '^ok' /tmp/reg_twins1.txt) silent; alarms: $(grep '^ALARM' /tmp/reg_twins1.txt | sed 's#.*/twins/##;s#.diff##' | tr '\n' ' ')"
